@@ -139,7 +139,7 @@ def run(prop, tier):
             reported[cls] = reported.get(cls, 0) + 1
             if reported[cls] <= 2:
                 v.violation(key, detail, tags)
-    missing = {"sealed", "looked", "verified", "applied", "reapplied"} - {k for k, n in phases.items() if n > 0}
+    missing = {"sealed", "looked", "verified", "reverified", "applied", "reapplied"} - {k for k, n in phases.items() if n > 0}
     if missing:
         raise Machinery(f"vacuous run: no replayed case in phase(s) {sorted(missing)}")
     for what, n in sorted(drifts.items()):
